@@ -10,57 +10,57 @@ package tls
 // extension's field (same slice, not a merge with an earlier value) and writes nothing else.
 
 //@ func (*SupportedCurvesExtension).writeToUConn
-//@   property C12 C13
+//@   property C12 C13 C03
 //@   requires e != nil && uc != nil && uc.Conn != nil && uc.config != nil && uc.HandshakeState.Hello != nil
 //@   modifies uc.config.CurvePreferences, uc.HandshakeState.Hello.SupportedCurves
 //@   ensures ret == nil && uc.HandshakeState.Hello.SupportedCurves == e.Curves && uc.config.CurvePreferences == e.Curves
 
 //@ func (*SupportedPointsExtension).writeToUConn
-//@   property C12
+//@   property C12 C03
 //@   requires e != nil && uc != nil && uc.HandshakeState.Hello != nil
 //@   modifies uc.HandshakeState.Hello.SupportedPoints
 //@   ensures ret == nil && uc.HandshakeState.Hello.SupportedPoints == e.SupportedPoints
 
 //@ func (*SignatureAlgorithmsExtension).writeToUConn
-//@   property C12
+//@   property C12 C03
 //@   requires e != nil && uc != nil && uc.HandshakeState.Hello != nil
 //@   modifies uc.HandshakeState.Hello.SupportedSignatureAlgorithms
 //@   ensures ret == nil && uc.HandshakeState.Hello.SupportedSignatureAlgorithms == e.SupportedSignatureAlgorithms
 
 //@ func (*SignatureAlgorithmsCertExtension).writeToUConn
-//@   property C12
+//@   property C12 C03
 //@   requires e != nil && uc != nil && uc.HandshakeState.Hello != nil
 //@   modifies uc.HandshakeState.Hello.SupportedSignatureAlgorithms
 //@   ensures ret == nil && uc.HandshakeState.Hello.SupportedSignatureAlgorithms == e.SupportedSignatureAlgorithms
 //@   note signature_algorithms_cert overwrites the same Hello field as signature_algorithms (there is no separate field)
 
 //@ func (*ALPNExtension).writeToUConn
-//@   property C12
+//@   property C12 C03
 //@   requires e != nil && uc != nil && uc.Conn != nil && uc.config != nil && uc.HandshakeState.Hello != nil
 //@   modifies uc.config.NextProtos, uc.HandshakeState.Hello.AlpnProtocols
 //@   ensures ret == nil && uc.HandshakeState.Hello.AlpnProtocols == e.AlpnProtocols && uc.config.NextProtos == e.AlpnProtocols
 
 //@ func (*KeyShareExtension).writeToUConn
-//@   property C12 C18
+//@   property C12 C18 C03
 //@   requires e != nil && uc != nil && uc.HandshakeState.Hello != nil
 //@   modifies uc.HandshakeState.Hello.KeyShares
 //@   ensures ret == nil && uc.HandshakeState.Hello.KeyShares == e.KeyShares
 
 //@ func (*PSKKeyExchangeModesExtension).writeToUConn
-//@   property C12
+//@   property C12 C03
 //@   requires e != nil && uc != nil && uc.HandshakeState.Hello != nil
 //@   modifies uc.HandshakeState.Hello.PskModes
 //@   ensures ret == nil && uc.HandshakeState.Hello.PskModes == e.Modes
 
 //@ func (*UtlsCompressCertExtension).writeToUConn
-//@   property C12 C21
+//@   property C12 C21 C03
 //@   requires e != nil && uc != nil
 //@   modifies uc.certCompressionAlgs
 //@   ensures ret == nil && uc.certCompressionAlgs == e.Algorithms
 //@   note the accepted set is REPLACED by the advertised list: an algorithm offered by an earlier build of the hello is not kept
 
 //@ func (*SNIExtension).writeToUConn
-//@   property C11 C15
+//@   property C11 C15 C03
 //@   requires e != nil && uc != nil && uc.Conn != nil && uc.config != nil && uc.HandshakeState.Hello != nil
 //@   modifies uc.config.ServerName, uc.HandshakeState.Hello.ServerName
 //@   ensures ret == nil && uc.HandshakeState.Hello.ServerName == snihost(e.ServerName)
@@ -68,19 +68,19 @@ package tls
 //@   ensures ech: !isnil(old(uc.config.EncryptedClientHelloConfigList)) ==> uc.config.ServerName == old(uc.config.ServerName)
 
 //@ func (*StatusRequestExtension).writeToUConn
-//@   property C12
+//@   property C12 C03
 //@   requires e != nil && uc != nil && uc.HandshakeState.Hello != nil
 //@   modifies uc.HandshakeState.Hello.OcspStapling
 //@   ensures ret == nil && uc.HandshakeState.Hello.OcspStapling
 
 //@ func (*SCTExtension).writeToUConn
-//@   property C12
+//@   property C12 C03
 //@   requires e != nil && uc != nil && uc.HandshakeState.Hello != nil
 //@   modifies uc.HandshakeState.Hello.Scts
 //@   ensures ret == nil && uc.HandshakeState.Hello.Scts
 
 //@ func (*ExtendedMasterSecretExtension).writeToUConn
-//@   property C12 C19
+//@   property C12 C19 C03
 //@   requires e != nil && uc != nil && uc.HandshakeState.Hello != nil
 //@   modifies uc.HandshakeState.Hello.Ems
 //@   ensures ret == nil && uc.HandshakeState.Hello.Ems
